@@ -36,9 +36,17 @@ def worst_case(args):
     from artap.algorithm import EvaluatorType
     prob = ec.make_problem(dim, tuple(['minimize', 'maximize'][:o]), 0, bounds=[(-1.0, 1.0)] * dim, tols=[0.1] * dim)
     base_costs = list(prob.costs)
+    faults = args.get('faults', 0)
+    if faults:
+        import artap.utils as U
+        stubs.install((U, 'random', stubs.s_random), (U, 'int', ops.sint))
 
     def body(ctx):
-        ec.reset_problem(prob, ctx)
+        ec.reset_problem(prob, ctx, faults=bool(faults), max_faults=faults)
+        prob.h.fault_kinds = 3      # transient failures only
+        # only the submitted designs may fail: a failing NEIGHBOUR evaluation is re-sampled by Job.evaluate and is
+        # then no neighbour any more -- that interaction is outside the quantifier of C14 (no faults there)
+        prob.h.fault_filter = lambda individual: len(individual.parents) == 0
         prob.costs = list(base_costs)
         tols = []
         for i, p in enumerate(prob.parameters):
@@ -51,13 +59,16 @@ def worst_case(args):
             size = 1 + ctx.choice('size_batch%d' % t, maxsize)      # every batch size 1..max is explored
             batch = [Individual(ec.sym_vector(ctx, 'b%d_d%d' % (t, j), prob)) for j in range(size)]
             orig = {id(d): list(d.vector) for d in batch}
-            c0 = len(prob.h.calls)
+            c0 = len(prob.h.ok_calls())
+            f0 = prob.h.nfault
             alg.evaluate(batch)
-            ncalls = len(prob.h.calls) - c0
+            ncalls = len(prob.h.ok_calls()) - c0
             ctx.output('calls_batch%d' % t, ncalls)
-            ctx.check('calls-per-batch=(1+2n)*new-designs', ncalls != (1 + 2 * dim) * size)
+            ctx.check('successful-calls-per-batch=(1+2n)*new-designs', ncalls != (1 + 2 * dim) * size)
             for d in batch:
-                designs.append((d, orig[id(d)]))
+                # a design re-sampled after a transient failure legitimately has a new vector: the neighbours
+                # must surround the vector that was finally evaluated and stored
+                designs.append((d, list(d.vector) if prob.h.nfault > f0 else orig[id(d)]))
             for d, x in designs:
                 ctx.check('cost-vector-length-stable', len(d.costs) != o + 1)
                 ctx.check('signed-cost-vector-length-stable', len(d.costs_signed) != o + 2)
@@ -130,9 +141,10 @@ def gradient(args):
 def configs(tier):
     out = []
 
-    def wc(dim, o, batches):
-        out.append({'name': 'worst-dim%d-o%d-%s' % (dim, o, 'x'.join(map(str, batches))), 'task': 'worst_case',
-                    'args': {'dim': dim, 'o': o, 'batches': batches}, 'weight': sum(batches) * dim, 'engine': {'validate': 10}})
+    def wc(dim, o, batches, faults=0):
+        out.append({'name': 'worst-dim%d-o%d-%s%s' % (dim, o, 'x'.join(map(str, batches)), '-faults%d' % faults if faults else ''),
+                    'task': 'worst_case', 'args': {'dim': dim, 'o': o, 'batches': batches, 'faults': faults},
+                    'weight': sum(batches) * dim * (20 if faults else 1), 'split': 32 if faults else None, 'engine': {'validate': 10}})
 
     def gr(dim, o, batches):
         out.append({'name': 'grad-dim%d-o%d-%s' % (dim, o, 'x'.join(map(str, batches))), 'task': 'gradient',
@@ -141,6 +153,7 @@ def configs(tier):
     wc(2, 1, (2, 1, 2))
     wc(1, 2, (1, 2, 2))
     wc(2, 2, (2, 2))
+    wc(1, 1, (2, 1), faults=1)
     gr(1, 1, (2, 2))
     gr(2, 1, (2, 2))
     gr(2, 2, (1, 2))
